@@ -473,7 +473,15 @@ func doubleOK(got, want float64) bool {
 // RealDecode feeds wire bytes to a real stream and reads the values back with
 // the real Get* calls. It returns the index of the first value that differs
 // (-1 if none) and a description.
-func RealDecode(raw []byte, vals []Val, enc bool, salt, dribble int, stt *Stats) (int, string) {
+func RealDecode(raw []byte, vals []Val, enc bool, salt, dribble int, stt *Stats) (idx int, what string) {
+	cur := 0
+	defer func() {
+		// a panic of the real decoder on well-formed input is a decoding failure of
+		// the value being read, not a harness problem
+		if r := recover(); r != nil {
+			idx, what = cur, fmt.Sprintf("Get of %s panicked: %v", vals[cur].T, r)
+		}
+	}()
 	dc := wire.NewDribbleConn("receiver", dribble)
 	dc.Feed(raw)
 	st := stream.NewStream(dc)
@@ -484,6 +492,7 @@ func RealDecode(raw []byte, vals []Val, enc bool, salt, dribble int, stt *Stats)
 	}
 	m := message.NewMessageFromStream(st)
 	for i, v := range vals {
+		cur = i
 		stt.Gets++
 		switch v.T {
 		case "char":
